@@ -16,7 +16,7 @@ def main():
     rep = Report(PID, 'translation_validation', 'symbolic execution of the emitted assembly (z3) vs source-level reference interpreter; equivalence obligations per path pair')
     quick = rep.tier == 'quick'
     cases = F.seq_enumerated() + F.entry_matrix() + F.seq_random(rep.seed, 300 if quick else 3000)
-    widths = [2] if quick else [2, 3, 4, 8]
+    widths = [2, 3, 4] if quick else [2, 3, 4, 8]
     tasks = []
     for W in widths:
         for c in cases:
@@ -24,16 +24,11 @@ def main():
                 continue
             tasks.append(case_to_task(c.with_(word=W, stack=96), max_steps=20000, stack_garbage=not quick, vm_wall=120,
                                       allow_reject='random' in c.name))
-    if quick:
-        # a slice at the other word sizes on every change
-        for W in (3, 4):
-            for c in cases[::7]:
-                tasks.append(case_to_task(c.with_(word=W, stack=96), max_steps=20000, vm_wall=120, allow_reject='random' in c.name))
     run_tasks(rep, tasks)
     rep.rule = ('templates = enumerated T-seq family + entry-point signature matrix + seeded random sequential programs; distinct = distinct '
                 'template name x word size with at least one committed VM path; all entry arguments symbolic (whole word / byte / string bytes)')
     rep.functions_encoded = ['emitted code of CodeGen.gen_func/gen_block/gen_stmts/push_expr/eval_expr/eval_func_call/lookup_var/make_global/array_lookup/array_assignment + stdlib routines used']
-    rep.bounds = dict(word_sizes=widths + ([3, 4] if quick else []), stack_words=96, array_lengths='0..3 (concrete), contents symbolic',
+    rep.bounds = dict(word_sizes=widths, stack_words=96, array_lengths='0..3 (concrete), contents symbolic',
                       instructions_per_path=20000, loops='trip counts bounded by the templates (<= 4)',
                       outside='programs outside the families; time travel (C02); tight stacks (C04/C18); write(int) formatting (C17)')
     rep.assumptions = ['Sphinx machine model (DESIGN section 3); div/mod floor', 'typed AST (overload choice, inserted casts, folded constants) taken from the real front end',
